@@ -626,6 +626,30 @@ func fromPrefixCounts(v ssa.Value, d int) bool {
 		return fromPrefixCounts(x.X, d+1)
 	case *ssa.BinOp:
 		return fromPrefixCounts(x.X, d+1) || fromPrefixCounts(x.Y, d+1)
+	case *ssa.Parameter:
+		// a helper that is handed the counts: every call site passes a value computed from them
+		fn := x.Parent()
+		idx := -1
+		for i, q := range fn.Params {
+			if q == x {
+				idx = i
+			}
+		}
+		n := 0
+		if curProg == nil {
+			return false
+		}
+		for _, h := range curProg.FuncsOf(triePath) {
+			for _, c := range callsIn(h) {
+				if calleeOf(c) == fn && idx >= 0 && idx < len(c.Common().Args) {
+					n++
+					if !fromPrefixCounts(c.Common().Args[idx], d+1) {
+						return false
+					}
+				}
+			}
+		}
+		return n > 0
 	}
 	return false
 }
